@@ -7,15 +7,18 @@ RULE = ("each obligation is one Kani/CBMC query with Kani's panic / overflow / s
 
 SPECS = [p_kani.Spec("steel-core", "steel-core/src/primitives/numbers.rs", "num.rs", "verif_num"),
          p_kani.Spec("steel-core", "steel-core/src/compiler/map.rs", "sym.rs", "verif_sym"),
-         p_kani.Spec("steel-core", "steel-core/src/primitives.rs", "idx.rs", "verif_idx")]
-FUNCS = ["primitives::numbers::{arithmetic_shift, expt (integer base, exponent -30), abs, negate, add_two, truncate_quotient, floor_remainder, euclidean_remainder, even, odd}",
+         p_kani.Spec("steel-core", "steel-core/src/primitives.rs", "idx.rs", "verif_idx"),
+         p_kani.Spec("steel-parser", "steel-parser/src/lexer.rs", "lex.rs", "verif_lex", features=False)]
+FUNCS = ["steel_parser::lexer::parse_real (the number-literal kernel behind string->number and every numeric token)",
+         "primitives::numbers::{arithmetic_shift, expt (integer base, exponent -30), abs, negate, add_two, truncate_quotient, floor_remainder, euclidean_remainder, even, odd}",
          "compiler::map::SymbolMap::{add, roll_back}",
          "registered wrappers (arity test + argument conversions + body) of bytes-ref, bytes-set!, bytes-copy, bytes->string/utf8, make-bytes, "
          "string-ref, substring, integer->char, vector-ref (immutable vectors)"]
 ASSUME = [
     "Kani checks overflow as the dev/test profile does (overflow-checks on); a wrapped value in release is a C10 matter",
-    "arbitrary source TEXT is outside the claim: a 2-byte symbolic input through the real lexer does not leave symbolic execution (DESIGN C12)",
+    "arbitrary source TEXT is outside the claim: a 2-byte symbolic input through the real lexer does not leave symbolic execution (DESIGN C12); only the number-literal kernel parse_real is executed, on strings of <= 4 bytes that avoid the decimal-to-double conversion of the standard library ('.', 'e', 'E' excluded)",
     "stubs as in C10 / C06",
+    "idxguard (E3l): the preconditions of the container methods are a table read from the container libraries' sources (imbl: set/update index self[index]; split_off asserts index <= len, take = split_off; std Vec); the length compared in a guard is identified with the length of the indexed container by TYPE (a guard on another container of the same type would be mistaken for it; the native replay decides); only sites whose index is a parameter or an argument's integer payload are interpreted",
     "bounds (E3b): only branch conditions on the argument count are interpreted, every other branch is free; accesses with a non-constant index and sub-slicing (args[1..]) are not interpreted; scope = functions carrying a steel_derive function/native/native_mut/context attribute with a name",
 ]
 KF_RESIDUE = "sym:rollback-keeps-definition-in-recycled-slot"
@@ -41,6 +44,7 @@ def plan(tier):
         {"h": "sym_rollback_with_recycled_slot", "spec": 1, "sym": "f in {1,2,3}",
          "classify": {KF_RESIDUE: r"reused a released slot"}, "known": {KF_RESIDUE: "sym_rollback_with_recycled_slot__kf"}},
         {"h": "sym_rollback_1_1", "spec": 1, "sym": "f1 in {1,2,3}"},
+        {"h": "lex_parse_real_total", "spec": 3, "sym": "(string->number s) / a numeric token s: every valid UTF-8 string of <= 4 bytes without '.', 'e', 'E'; radix 10 or 16"},
     ] + IDX_Q
     t = [
         {"h": "num_truncate_quotient_edge", "spec": 0, "sym": "x within 3 of isize::MIN/MAX, |y| <= 3"},
@@ -318,7 +322,109 @@ def check(pid, tier, seed):
     run = p_kani.check(pid, tier, seed, SPECS, plan(tier), FUNCS, {"operands": "full 64-bit", "names": 3, "argument count": "64-bit"}, ASSUME, RULE, slots=3)
     bounds_obligations(run)
     kinds_obligations(run)
+    idxguard_obligation(run)
     return run
+
+
+CONTAINER_EXPR = {"GenericVector": "(immutable-vector 1 2 3)", "Vec": "(vector 1 2 3)"}
+
+
+def idx_calls(f, script, r):
+    """script calls that pass the solver's index to the procedure: the container once held by a global (shared) and once
+    fresh (unique); parameters: first value parameter = the container, integer parameters = the index, the rest = 0"""
+    import re
+    i, n = r["index_len"] or (3, 3)
+    i = i if i < (1 << 62) else 3
+    cont = CONTAINER_EXPR.get(r["container"], "(vector 1 2 3)")
+    if "bytes" in f.name.split("::")[-1]:
+        cont = "(bytes 1 2 3)"
+    shapes = []
+    for held in ("ys-cont", cont):
+        args, used = [], False
+        for a, t in f.argtypes.items():
+            t = t.strip()
+            if re.fullmatch(r"(usize|isize|u32|i32|u64|i64)", t):
+                args.append(str(i))
+            elif not used:
+                args.append(held)
+                used = True
+            else:
+                args.append("0")
+        shapes.append("(%s %s)" % (script, " ".join(args)))
+    return "(define ys-cont %s) ;; %s" % (cont, " ;; ".join(shapes))
+
+
+def idxguard_obligation(run):
+    """E3l: the guard in front of an indexing call implies the call's precondition (lib/p_idxguard.py)"""
+    import os, re, json, shutil, subprocess, time
+    import ws, mir, p_idxguard
+    oid = "idxguard:guards-imply-index-preconditions"
+    M = getattr(run, "_mir", None)
+    t0 = time.time()
+    if M is None:
+        run.ob(oid, "inconclusive", reason="no MIR dump", engine="mir-smt")
+        return
+    try:
+        reg = M["reg"]
+        wanted = set(reg) | {k[6:] for k, v in reg.items() if v[0] == "function"}
+        funcs = mir.parse(open(M["out"]).read(), lambda n: n.split("::")[-1] in wanted)
+        res = p_idxguard.analyse(funcs)
+    except Exception as ex:
+        run.ob(oid, "inconclusive", reason="extraction failed: %s" % str(ex)[-300:], engine="mir-smt")
+        return
+    common = dict(engine="mir-smt/z3", wall_s=round(time.time() - t0, 1), solver_s=round(sum(r["dt"] for r in res), 3), solver_checks=2 * len(res))
+    run.samples.append({"engine": "mir-smt", "query": "exists index i, length n (64 bit) and a path to the indexing call along which every comparison of i with the length / a constant holds, with NOT (i rel n) for the relation the call requires",
+                        "sites": [(r["function"], r["method"], r["requires"], "%d guard(s)" % r["guards"], r["res"]) for r in res]})
+    run.functions.append("%d indexing sites in script-callable procedures (GenericVector::{set, update, take, split_*}, Vec::{remove, insert, ..}, Index<usize>::index) with an index that is a parameter or an argument's payload: guards vs. the callee's precondition (MIR)" % len(res))
+    if len(res) < 4 or any(r["witness"] != "sat" for r in res) or any(r["res"] == "error" for r in res):
+        run.ob(oid, "inconclusive", reason="vacuous or solver error (%d sites)" % len(res), **common)
+        return
+    bad = [r for r in res if r["res"] == "sat"]
+    if not bad:
+        run.ob(oid, "pass", nonvacuous=True, note="%d indexing sites: every index that passes the guards satisfies the callee's precondition" % len(res), **common)
+        return
+    viol, incon = [], []
+    seen = set()
+    for r in bad:
+        fn = r["function"]
+        if fn in seen:
+            continue
+        seen.add(fn)
+        f = [g for g in funcs.values() if g.name.split("::")[-1] == fn][0]
+        ent = reg.get("steel_" + fn) or reg.get(fn)
+        what = "%s: index %s reaches %s::%s (requires %s) past %d guard(s)" % (fn, (r["index_len"] or ("?", "?"))[0], r["container"], r["method"], r["requires"], r["guards"])
+        if not ent:
+            incon.append("solver: %s; no script name for the procedure" % what)
+            continue
+        spec = idx_calls(f, ent[1], r)
+        try:
+            shutil.copy(os.path.join(ws.VERIF, "harness", "arity_replay.rs"), os.path.join(M["wsdir"], "crates", "steel-core", "tests", "verif_arity_replay.rs"))
+            p = subprocess.run(["cargo", "test", "--offline", "-p", "steel-core", "--no-default-features", "--features", ws.FEATURES,
+                                "--test", "verif_arity_replay", "--target-dir", os.path.join(M["root"], "tn"), "--", "idxguard_replay", "--exact", "--nocapture"],
+                               cwd=M["wsdir"], env=dict(M["env"], VERIF_IDX_CALLS=spec), capture_output=True, text=True, timeout=2400)
+            m = re.search(r"OBSERVED: (.*)", p.stdout + p.stderr)
+        except Exception as ex:
+            incon.append("replay failed: %s" % str(ex)[-200:])
+            continue
+        if not m:
+            incon.append("solver: %s; %s did not panic natively" % (what, spec))
+            continue
+        d = os.path.join(ws.VERIF, "replays", run.pid)
+        os.makedirs(d, exist_ok=True)
+        path = os.path.join(d, "idxguard_%s.json" % fn)
+        json.dump({"property": run.pid, "kind": "idxguard", "what": what, "calls": spec, "observed": m.group(1), "how": "./check %s --replay <this file>" % run.pid}, open(path, "w"), indent=1)
+        key = "idxguard:%s" % fn
+        if run.is_known(key):
+            run.known_hit(key, run.known[(run.pid, key)] + " -- " + m.group(1)[:200])
+        else:
+            run.violation(key, "%s; natively: %s" % (what, m.group(1)[:300]), path)
+            viol.append(m.group(1))
+    if viol:
+        run.ob(oid, "fail", note=viol[0][:200], **common)
+    elif incon:
+        run.ob(oid, "inconclusive", reason=incon[0], **common)
+    else:
+        run.ob(oid, "known", nonvacuous=True, **common)
 
 
 def replay(pid, path):
@@ -332,6 +438,20 @@ def replay(pid, path):
         p = subprocess.run(["cargo", "test", "--offline", "-p", "steel-core", "--no-default-features", "--features", ws.FEATURES,
                             "--test", "verif_arity_replay", "--target-dir", os.path.join(root, "tn"), "--", "kinds_replay", "--exact", "--nocapture"],
                            cwd=wsdir, env=dict(os.environ, VERIF_KINDS_CALL=payload["call"]), capture_output=True, text=True)
+        m = re.search(r"OBSERVED: (.*)", p.stdout + p.stderr)
+        print("observed:", m.group(1) if m else "not reproduced")
+        if m:
+            print("VIOLATION property=%s replay=%s" % (pid, path))
+            return 1
+        return 0
+    if payload.get("kind") == "idxguard":
+        import os, shutil, subprocess, re, ws
+        wsdir = ws.prepare("c07replay", [])
+        root = os.path.dirname(wsdir)
+        shutil.copy(os.path.join(ws.VERIF, "harness", "arity_replay.rs"), os.path.join(wsdir, "crates", "steel-core", "tests", "verif_arity_replay.rs"))
+        p = subprocess.run(["cargo", "test", "--offline", "-p", "steel-core", "--no-default-features", "--features", ws.FEATURES,
+                            "--test", "verif_arity_replay", "--target-dir", os.path.join(root, "tn"), "--", "idxguard_replay", "--exact", "--nocapture"],
+                           cwd=wsdir, env=dict(os.environ, VERIF_IDX_CALLS=payload["calls"]), capture_output=True, text=True)
         m = re.search(r"OBSERVED: (.*)", p.stdout + p.stderr)
         print("observed:", m.group(1) if m else "not reproduced")
         if m:
